@@ -88,8 +88,15 @@ class E:
             f = {"ROW_NUMBER": an.RowNumber, "RANK": an.Rank}[c[0]]() if c[1] is None else {"SUM": an.Sum, "COUNT": an.Count, "MAX": an.Max}[c[0]](c[1].lib(env))
             if c[2]:
                 f = f.over(*[x.lib(env) for x in c[2]])
+            # consecutive keys of one direction go into ONE orderby(k1, k2, .., order=d) call, as a user writes it
+            runs = []
             for x, desc in c[3]:
-                f = f.orderby(x.lib(env), order=P.enums.Order.desc if desc else P.enums.Order.asc)
+                if runs and runs[-1][1] == desc:
+                    runs[-1][0].append(x)
+                else:
+                    runs.append(([x], desc))
+            for xs, desc in runs:
+                f = f.orderby(*[x.lib(env) for x in xs], order=P.enums.Order.desc if desc else P.enums.Order.asc)
             return f
         if k == "insub":
             return L(0).isin(c[1].lib())
@@ -481,6 +488,15 @@ def shape_programs():
             s = one("a")
             s.setops = [(o1, one("b")), (o2, one("a"))]
             out.append(("shape:setop-chain", s))
+    # window functions ordered by several keys of one direction (ties on the first key make the later keys matter)
+    for fnname, arg in (("ROW_NUMBER", None), ("RANK", None), ("SUM", C("b"))):
+        for desc in (True, False):
+            s = Sel()
+            s.sources = [("t", P.Table("t"), None)]
+            w = E("win", fnname, arg, [C("c")] if fnname != "RANK" else [], [(C("a"), desc), (C("b"), desc)])
+            s.items = [(C("a"), "a0"), (C("b"), "b0"), (C("c"), "c0"), (w, "w")]
+            s.orderby = [(C("a"), False), (C("b"), False), (C("c"), False)]
+            out.append(("shape:window-orderby-keys", s))
     # ORDER BY with several keys and directions
     for dirs in ((True, True), (True, False), (False, True)):
         s = Sel()
